@@ -5,6 +5,7 @@ EXTENDS Maze, TraceKit
 
 RewardQ(e) == e.ts.reward.q[1]
 EnvMask(i) == PreTs(i).obs.action_mask          \* the mask the implementation showed the agent before acting
+ShapeOK(i) == WallsShape(Ev(i).s.walls) /\ (IsStep(i) => WallsShape(Pre(i).walls))
 RuleStep(i) == IsStep(i) /\ ~Ev(i).pl           \* a step taken from a state the episode continues from
 
 (* ---------------- C04: mask = rules, and the implementation honours its own mask ---------------- *)
@@ -88,7 +89,7 @@ C10(i) ==
         ELSE {})
 
 (* ---------------- C11: time limit as requested by the harness ---------------- *)
-C11(i) == C11Group(i, TLimit, Ev(i).s.step_count, OtherEnd(A(Ev(i).s)))
+C11(i) == C11Group(i, TLimit, Ev(i).s.step_count, IF ShapeOK(i) THEN OtherEnd(A(Ev(i).s)) ELSE FALSE)
 C11Count(i) ==      \* the counter the limit is measured on really counts the steps of the episode
   IF IsStep(i)
   THEN { <<"C11.step_count_counts_steps", Ev(i).s.step_count = Ev(i).i>> } ELSE {}
@@ -103,16 +104,20 @@ C12(i) ==
     <<"C12.obs_field_action_mask", e.ts.obs.action_mask = o.action_mask>>,
     <<"C12.state_mask_copy", e.s.action_mask = e.ts.obs.action_mask>> }
 
+(* A walls array of the wrong shape makes the rule clauses meaningless (and unevaluable): each enabled rule
+   group then reports the single clause <group>.walls_shape instead. *)
+Guarded(p, grp, i) == IF ~On(p) THEN {} ELSE IF ShapeOK(i) THEN grp ELSE { <<p \o ".walls_shape", FALSE>> }
+
 Clauses(i) ==
         ( (IF On("C01") THEN C01Group(i) ELSE {})
      \cup (IF On("C03") THEN C03Group(i, FALSE) ELSE {})
-     \cup (IF On("C04") THEN C04(i) ELSE {})
-     \cup (IF On("C05") THEN C05(i) ELSE {})
-     \cup (IF On("C07") THEN C07(i) ELSE {})
-     \cup (IF On("C09") THEN C09(i) ELSE {})
-     \cup (IF On("C10") THEN C10(i) ELSE {})
+     \cup Guarded("C04", C04(i), i)
+     \cup Guarded("C05", C05(i), i)
+     \cup Guarded("C07", C07(i), i)
+     \cup Guarded("C09", C09(i), i)
+     \cup Guarded("C10", C10(i), i)
      \cup (IF On("C11") THEN C11(i) \cup C11Count(i) ELSE {})
-     \cup (IF On("C12") THEN C12(i) ELSE {}) )
+     \cup Guarded("C12", C12(i), i) )
 
 RewardNum(i) == RewardQ(Ev(i))
 MaskAllows(i) == EnvMask(i)[Ev(i).a + 1]
